@@ -293,6 +293,36 @@ def tx_then_block_plans():
             yield plan
 
 
+def exec_atomic_plans():
+    """an EXEC whose queue contains blocking pops on empty lists (which must not wait there) between two writes: another client never sees the first
+    write without the second - the block runs to its end inside one critical section"""
+    for blk in ([b'blpop', b'l0', b'0'], [b'brpop', b'l1', b'l0', b'5'], [b'brpoplpush', b'l0', b'dst', b'0'], [b'brpoplpush', b'l0', b'l0', b'2']):
+        for pre in ([], [(2, [b'rpush', b'l1', b'x'])], [(2, [b'set', b'l0', b'str'])]):
+            def plan(s, rng, blk=blk, pre=pre):
+                s.tokens = 0
+                s.in_multi = set()
+                s.cdb = 0
+                yield ('open', 1)
+                yield ('open', 2)
+                for c, f in pre:
+                    yield ('cmd', c, list(f))
+                for f in ([b'multi'], [b'set', b'a', b'1'], list(blk), [b'set', b'b', b'1'], [b'exec']):
+                    yield ('cmd', 1, f)
+                yield ('cmd', 2, [b'mget', b'a', b'b'])
+                yield ('cmd', 2, [b'rpush', b'l0', b'tok'])
+                yield ('cmd', 2, [b'mget', b'a', b'b'])
+                yield ('cmd', 1, [b'ping'])
+                yield ('cmd', 2, [b'lrange', b'l0', b'0', b'-1'])
+            yield plan
+
+
+def run_exec_atomic(res, seed, prop='C12'):
+    for i, plan in enumerate(exec_atomic_plans()):
+        if _run_sched_plan(res, plan, (seed * 13 + i) & 0x7fffffff, 6 + (i + seed) % 2, prop):
+            return True
+    return False
+
+
 def run_tx_then_block(res, seed):
     for i, plan in enumerate(tx_then_block_plans()):
         if _run_sched_plan(res, plan, (seed * 11 + i) & 0x7fffffff, 6 + (i + seed) % 2):
@@ -300,7 +330,7 @@ def run_tx_then_block(res, seed):
     return False
 
 
-def _run_sched_plan(res, plan, hseed, version):
+def _run_sched_plan(res, plan, hseed, version, prop='C11'):
     """-> True when a finding was recorded"""
     rng = random.Random(hseed)
     s = corr.Session(version, hseed, True, (mon_blocking,), sched=True)
@@ -320,7 +350,7 @@ def _run_sched_plan(res, plan, hseed, version):
         res.samples.append({'version': version, 'seed': hseed, 'events': [corr.ev_json(e) for e in events[:25]]})
     if s.violations:
         v = s.violations[0]
-        res.add({'kind': 'monitor', 'property': 'C11', 'clause': v.clause, 'detail': v.detail, 'version': version, 'seed': hseed,
+        res.add({'kind': 'monitor', 'property': prop, 'clause': v.clause, 'detail': v.detail, 'version': version, 'seed': hseed,
                  'sched': True, 'events': [corr.ev_json(e) for e in events[:v.index + 1]]})
         return True
     if div is not None:
